@@ -183,11 +183,6 @@ def encode (p : Picture) : Bytes :=
 
 end Spec
 
-/-- rows of `p` bytes in stored order -/
-def storedRows (px : Bytes) (p : Nat) : Nat → List Bytes
-  | 0 => []
-  | n + 1 => px.take p :: storedRows (px.drop p) p n
-
 /-- the picture a bitmap object shows: palette padded with black to 256 entries, rows listed top-down -/
 def picture (f : Bmp) : Spec.Picture :=
   let rows := storedRows f.pixels 32 f.ih.height.natAbs
